@@ -130,6 +130,27 @@ def blatt_weisskopf_records(tier):
             except (ValueError, TypeError, ZeroDivisionError):
                 hank = exactq(sp.nan)
             recs.append({"k": "bwval", "L": L, "z": rat(zq), "fast": fast, "hankel": hank})
+    # the caller's symbols may have any name: the defining expression with the symbolic L (or a symbol inside z) called like a
+    # summation index an implementation might use - the values must not depend on it (no capture by a bound index)
+    for nm in ("k", "n", "j", "i", "m", "l", "ell", "R"):
+        u = sp.Symbol(nm, integer=True, nonnegative=True)
+        for L in ((2, 3) if tier != "thorough" else (1, 2, 3, 5, 8)):
+            for zz in ("1/4", "4"):
+                zq = sp.Rational(zz)
+                try:
+                    fast = exactq(BlattWeisskopfSquared(zq, sp.Integer(L)).doit())
+                except (ValueError, TypeError, ZeroDivisionError):
+                    fast = exactq(sp.nan)
+                try:
+                    hank = exactq(BlattWeisskopfSquared(z, u).doit().subs({u: L, z: zq}).doit())
+                except (ValueError, TypeError, ZeroDivisionError):
+                    hank = exactq(sp.nan)
+                recs.append({"k": "bwval", "L": L, "z": rat(zq), "fast": fast, "hankel": hank, "symbol": nm})
+                try:   # ... and the symbol inside z (z = u/4 or 4u at u = 1), symbolic L
+                    hank2 = exactq(BlattWeisskopfSquared(zq * u, ell).doit().subs({ell: L, u: 1}).doit())
+                except (ValueError, TypeError, ZeroDivisionError):
+                    hank2 = exactq(sp.nan)
+                recs.append({"k": "bwval", "L": L, "z": rat(zq), "fast": fast, "hankel": hank2, "symbol": nm + " in z"})
     return recs
 
 
@@ -333,7 +354,7 @@ def sig_of(clause, info, rec):
     if rec["k"] == "bwpoly":
         return f"blatt-weisskopf:{clause}:{rec['path']}-path", f"L={rec['L']}"
     if rec["k"] == "bwval":
-        return f"blatt-weisskopf:{clause}", f"L={rec['L']}"
+        return f"blatt-weisskopf:{clause}" + (f":caller-symbol-named-{rec['symbol'].replace(' ', '-')}" if rec.get("symbol") else ""), f"L={rec['L']}"
     if rec["k"] == "width":
         if clause == "WidthAtPole":
             return f"width(m0^2)!=Gamma0:{rec['X']}", f"L={rec['L']}"
@@ -358,7 +379,7 @@ def describe(rec):
         from ..lineshape_obs import unz
 
         f = lambda o: "undefined" if o["st"] != "exact" else str(sp.Rational(unz(o["q"][0]), unz(o["q"][1])))
-        return f"B_{rec['L']}^2({sp.Rational(*rec['z'])}): fast path {f(rec['fast'])}, Hankel path {f(rec['hankel'])}"
+        return f"B_{rec['L']}^2({sp.Rational(*rec['z'])}): fast path {f(rec['fast'])}, Hankel path {f(rec['hankel'])}" + (f" (caller's symbol named {rec['symbol']})" if rec.get("symbol") else "")
     if rec["k"] == "width":
         q = lambda k: sp.Rational(*rec[k])
         return (f"EnergyDependentWidth(s={q('s')}, m0={q('m0')}, Gamma0, m1={q('m1')}, m2={q('m2')}, L={rec['L']}, d={q('d')}, {rec['X']}).doit()/Gamma0 = {show(rec['o'])}")
